@@ -150,7 +150,7 @@ def skel_ForOf : List String := [
   "...func{",
   "...}",
   "..if ex != nil",
-  "...iter.returnIter()",
+  "..._ = r.vm.try(iter.returnIter)",
   "...panic(ex)",
   "..if !continueIteration",
   "...iter.returnIter()",
@@ -470,11 +470,13 @@ theorem tie_error_method_guarded :
     (∀ ex : Exc, ex.errorPanics = false) := by
   refine ⟨by decide, by decide, by decide, by decide, fun _ => rfl⟩
 
-/-- Runtime.ForOf closes the iterator UNGUARDED after the step callback threw (the model's `fot` frame lets the
-exception of return() replace the original one; known finding C14 `forof-return-replaces-exception`). -/
-theorem tie_forOf_return_unguarded :
-    GojaModel.Generated.C14.skel_ForOf.contains "...iter.returnIter()" = true ∧
-    (applyFrame 2 .fot false (.panic (.exc ⟨.obj 1, .thrower⟩) .thrower)).1 =
+/-- Runtime.ForOf closes the iterator GUARDED after the step callback threw (fix 51964d9): the model's `fot` frame
+lets the original exception through; the pre-fix frame (`fotPrefix`) did not. -/
+theorem tie_forOf_return_guarded :
+    GojaModel.Generated.C14.skel_ForOf.contains "..._ = r.vm.try(iter.returnIter)" = true ∧
+    (applyFrame 2 .fot false (.panic (.exc ⟨.obj 1, .thrower⟩) .thrower)) =
+      (.panic (.exc ⟨.obj 1, .thrower⟩) .other, [⟨2, .iterReturn⟩]) ∧
+    (fotPrefix 2 false (.panic (.exc ⟨.obj 1, .thrower⟩) .thrower)).1 =
       .panic (.exc ⟨.freshErr .error .other, .other⟩) .other := by decide
 
 end GojaModel.C14.Tie
